@@ -99,8 +99,21 @@ def magic_rules(prog, rule):
             ln = const(args[2])
             key = "%s:%s(%s,%s)" % (fname, cmpf, arr, ln)
             full = len(want2)
+            # polarity of the use: `cmp(...) == 0` identifies this very magic code, `cmp(...) != 0` rules out any magic code
+            pol = None
+            for x in walk(r):
+                if x.get("k") == "bin" and x.get("op") in ("==", "!="):
+                    l, rr = strip(x.get("lhs")), strip(x.get("rhs"))
+                    if (isinstance(l, dict) and l.get("id") == n.get("id") and const(rr) == 0) or \
+                            (isinstance(rr, dict) and rr.get("id") == n.get("id") and const(l) == 0):
+                        pol = x["op"]
+            key = "%s:%s(%s,%s)%s" % (fname, cmpf, arr, ln, pol or "")
             if arr == "CIF1_MAGIC":
                 okk = ln == PREFIX_LEN          # "a magic code for another version": the common prefix only
+            elif pol == "!=":
+                okk = ln == PREFIX_LEN          # "no magic code of any version": must not distinguish versions
+            elif pol == "==":
+                okk = ln == full                # "this is the CIF 2.0 magic code": the whole code
             else:
                 okk = ln in (full, PREFIX_LEN)
             if okk:
